@@ -5,7 +5,11 @@ import (
 	"strings"
 
 	"github.com/casbin/casbin/v2"
+
+	"verif/harness/internal/mem"
 )
+
+type memLineT = mem.Line
 
 func init() { registry["C04"] = runC04 }
 
@@ -145,6 +149,36 @@ func runC04(c *Ctx) {
 	opts := CaseOpts{Adapter: true, ALines: nil, Customs: custom, MatchFns: []string{"keyMatch"}, OraUniverse: universe}
 	cfg := mk("rbac-pattern", ms, alpha, probes, reqs, opts)
 	enumerate(c, cfg)
+
+	// manual role links: auto-build and auto-save off, the store already holds rules; LoadPolicy then leaves the
+	// links alone until BuildRoleLinks (which does not invalidate by itself)
+	optsM := CaseOpts{Adapter: true, Customs: custom, MatchFns: []string{"keyMatch"}, OraUniverse: universe,
+		ALines: []memLineT{{"p", P[0]}, {"g", G[1]}, {"g", G[0]}}}
+	alphaM := []EOp{
+		{Kind: "rm", Sec: "g", PType: "g", Rule: G[1]}, {Kind: "add", Sec: "g", PType: "g", Rule: G[2]},
+		{Kind: "add", Sec: "p", PType: "p", Rule: []string{"reader", "data", "read"}}, {Kind: "rm", Sec: "p", PType: "p", Rule: P[0]},
+		{Kind: "load"}, {Kind: "buildlinks"}, {Kind: "clear"},
+	}
+	cfgM := mk("rbac-manual-links", ms, alphaM, probes, reqs, optsM)
+	cfgM.Setup = append([]EOp{{Kind: "set", Flag: "autosave", On: false}, {Kind: "set", Flag: "autobuild", On: false}}, probes...)
+	cfgM.Depth = depth + 1
+	inner := cfgM.AfterStep
+	manualStale := false
+	cfgM.AfterStep = func(c *Ctx, s *Sess, hist []EOp, obs string) {
+		if len(hist) == 1 {
+			manualStale = false
+		}
+		switch hist[len(hist)-1].Kind {
+		case "load":
+			manualStale = true // by design: the caller has to rebuild the links
+		case "buildlinks":
+			manualStale = false
+		}
+		if !manualStale {
+			inner(c, s, hist, obs)
+		}
+	}
+	enumerate(c, cfgM)
 
 	// domain model with a pattern domain
 	msD := rbacSpec(true, false)
